@@ -6,7 +6,7 @@ fn arg_after(args: &[String], flag: &str) -> Option<String> {
 }
 
 fn quiet_panics() {
-    infra::install_panic_hook();
+    infra::install_panic_hook_once();
 }
 
 fn main() {
